@@ -23,7 +23,7 @@ ASSUMPTIONS = ["orientation of a row = Rz(psi).Rx(theta).Rz(phi) (DESIGN section
                "z-mirror conjugate of R is M.R.M with M = diag(1,1,-1)"]
 
 CLASSES = ["one_row_n4", "odd_index", "random", "half_ties", "gimbal", "wide_angles", "negative_positions", "n1", "multi_tomo_flip", "single_dim_flip",
-           "compose_shift", "compose_rot", "flip_twice", "update_only", "big_adjacent_tomos", "block_sizes"]
+           "compose_shift", "compose_rot", "flip_twice", "update_only", "big_adjacent_tomos", "block_sizes", "int_positions"]
 # particle counts at which blocked / batched rewrites go wrong (2**k - 1, 2**k, 2**k + 1); the row-wise cryoCAT code needs ~1.5 ms per row
 BLOCK_N = [63, 64, 65, 127, 129, 257, 513, 1025, 2049, 4097]
 OTHER = [c for c in gens.COLS if c not in ("x", "y", "z", "shift_x", "shift_y", "shift_z", "phi", "theta", "psi")]
@@ -301,6 +301,12 @@ def gen(ctx, i, cls):
         f = rand_op("flip")
         f["fmt"] = str(rng.choice(["array_n4", "frame_n4", "file_n4"]))
         ops = [rand_op() for _ in range(int(rng.integers(0, 3)))] + [f] + ([dict(f)] if rng.random() < 0.5 else [])
+    elif cls == "int_positions":
+        sc = rand_op("scale")
+        sc["f"] = float(rng.choice([0.5, 1.5, 0.25, 2.5, float(rng.uniform(0.3, 3.0))]))
+        ops = [rand_op() for _ in range(int(rng.integers(0, 3)))]
+        ops.insert(int(rng.integers(0, len(ops) + 1)), sc)
+        ops.append(rand_op(str(rng.choice(["update", "flip", "shift", "scale"]))))
     elif cls == "block_sizes":
         # every row-wise operation at every block-boundary count: the shift first (the slowest, most tempting to vectorise in blocks)
         ops = [rand_op("shift"), rand_op(str(rng.choice(["update", "rot", "flip", "scale"])))]
@@ -318,6 +324,14 @@ def gen(ctx, i, cls):
         df.loc[z0, ["shift_x", "shift_y", "shift_z"]] = 0.0
         if rng.random() < 0.7:
             df.loc[z0, ["x", "y", "z"]] = np.round(df.loc[z0, ["x", "y", "z"]].to_numpy() * 4) / 4 + 0.25
+    if cls == "int_positions" or rng.random() < 0.08:
+        # extraction positions stored in integer-typed columns (what picking tools and cryoCAT's own fixtures hold); the
+        # sub-voxel part stays in the float shift columns
+        for c in ("x", "y", "z"):
+            df[c] = np.round(df[c].to_numpy(dtype=float)).astype(np.int64)
+        for c in ("tomo_id", "object_id", "subtomo_id", "class"):
+            if rng.random() < 0.5:
+                df[c] = np.round(df[c].to_numpy(dtype=float)).astype(np.int64)
     holder = str(rng.choice(["Motl", "Motl", "EmMotl", "StopgapMotl", "RelionMotl:3.0", "RelionMotl:3.1", "RelionMotl:4.0"]))
     # a list whose table index is not 0..n-1 (what remove_feature / row filters / reset_index=False subsets leave behind)
     index_kind = "range"
@@ -361,10 +375,37 @@ def _make_dims(ctx, case, op, k):
         return list(op["single"])
     if fmt == "array3":
         return np.array(op["single"])
+    lay = (case["i"] * 7 + k * 3) % 6
     if fmt == "array_n4":
+        # the same N x 4 table in the memory layouts and dtypes arrays arrive in: C, Fortran, a transposed stack of columns
+        # (what np.array([ids, xs, ys, zs]).T and DataFrame.to_numpy() give), negative stride, integer-typed, read-only
+        if lay == 1:
+            return np.asfortranarray(rows)
+        if lay == 2:
+            return np.array([rows[:, 0], rows[:, 1], rows[:, 2], rows[:, 3]]).T
+        if lay == 3:
+            return rows[::-1].copy()[::-1]
+        if lay == 4 and np.all(rows == np.round(rows)) and np.abs(rows).max() < 2 ** 53:
+            return rows.astype(np.int64)
+        if lay == 5:
+            r = pd.DataFrame(rows.copy()).to_numpy()
+            r.setflags(write=False)
+            return r
         return rows.copy()
     if fmt == "frame_n4":
-        return pd.DataFrame(rows.copy())
+        f = pd.DataFrame(rows.copy())
+        # row labels of the table are not 0..n-1 (sort_values, .loc selection, concatenation)
+        if lay == 1 and len(f) > 1:
+            f = f.sort_values(0)
+        elif lay == 2 and len(f) > 1:
+            f.index = np.roll(np.arange(len(f)), 1)
+        elif lay == 3:
+            f.index = np.arange(len(f)) * 5 + 3
+        elif lay == 4:
+            f.index = [0] * len(f)
+        elif lay == 5:
+            f = f.iloc[::-1]
+        return f
     p = os.path.join(ctx.scratch, "dims_%d_%d.txt" % (case["i"], k))
     if fmt == "file_n4":
         np.savetxt(p, rows, fmt="%.17g")
